@@ -59,6 +59,10 @@ func (k *kaCore) handle(ws []string) string {
 func kaConnect(svr *service.Server, id int, c wConnect) (*rawClient, bool) {
 	cl, sv := net.Pipe()
 	rc := newRawClient(id, cl)
+	rc.stopped = make(chan struct{})
+	stoppedMu.Lock()
+	stoppedChans[sv] = rc.stopped
+	stoppedMu.Unlock()
 	go svr.VerifServe(sv)
 	rc.write(c.encode())
 	rc.waitUntil(func() bool { return len(rc.items) > 0 || rc.eof }, brokerWait)
@@ -71,6 +75,9 @@ func kaScenario(id, K int, interval time.Duration, count int, kind string) strin
 	name := fmt.Sprintf("verifka%d", n)
 	registerProviders(name)
 	svr := &service.Server{ConnectTimeout: 1, SessionsProvider: name, TopicsProvider: name, Authenticator: "verifAuth"}
+	if kind == "deafsub" || kind == "deafecho" {
+		svr.BufferSize = 16384 // small rings: the deaf subscriber's outgoing ring is full well before its deadline
+	}
 	willTopic := []byte(fmt.Sprintf("will/%d", id))
 	wit, ok := kaConnect(svr, 1, wConnect{protoName: []byte("MQTT"), version: 4, clean: true, clientID: []byte("witness"), keepAlive: 300})
 	if !ok {
@@ -91,12 +98,36 @@ func kaScenario(id, K int, interval time.Duration, count int, kind string) strin
 	d := time.Duration(eff)*time.Second + time.Duration(eff)*time.Second/5
 	last := time.Now()
 	active := "ok"
-	if kind == "silentsub" {
+	if kind == "deafecho" {
+		// the subject subscribes to a topic it publishes to itself, stops reading and sends until its own
+		// outgoing ring is full (its processor is then parked behind its own client), then falls silent
+		topic := []byte(fmt.Sprintf("echo/%d", id))
+		cl.write(wSubscribe(1, [][]byte{topic}, []int{0}))
+		cl.waitUntil(func() bool { return len(cl.items) > 0 }, brokerWait)
+		cl.setPaused(true)
+		pl := make([]byte, 4000)
+		for i := 0; i < 8; i++ {
+			cl.conn.SetWriteDeadline(time.Now().Add(300 * time.Millisecond))
+			if _, err := cl.conn.Write(wPub{qos: 0, topic: topic, payload: pl}.encode()); err != nil {
+				break
+			}
+			last = time.Now()
+		}
+		count = 0
+	}
+	if kind == "silentsub" || kind == "deafsub" {
 		// the subject subscribes to a busy topic and then sends nothing; a third client publishes to
 		// it every `interval` — traffic TO a client is not activity OF the client
 		topic := []byte(fmt.Sprintf("busy/%d", id))
 		cl.write(wSubscribe(1, [][]byte{topic}, []int{0}))
 		last = time.Now()
+		payload := []byte{0}
+		if kind == "deafsub" {
+			// the subject also stops READING: its outgoing ring fills up with the busy topic's traffic and
+			// the connection's processor ends up parked behind its own client
+			cl.setPaused(true)
+			payload = make([]byte, 4000)
+		}
 		pub, ok := kaConnect(svr, 3, wConnect{protoName: []byte("MQTT"), version: 4, clean: true, clientID: []byte("busy"), keepAlive: 300})
 		if !ok {
 			return "publisher-refused"
@@ -111,7 +142,8 @@ func kaScenario(id, K int, interval time.Duration, count int, kind string) strin
 					return
 				case <-time.After(interval):
 				}
-				pub.write(wPub{qos: 0, topic: topic, payload: []byte{byte(i)}}.encode())
+				payload[0] = byte(i)
+				pub.write(wPub{qos: 0, topic: topic, payload: payload}.encode())
 			}
 		}()
 		count = 0
@@ -136,6 +168,16 @@ func kaScenario(id, K int, interval time.Duration, count int, kind string) strin
 			break
 		}
 		last = time.Now()
+	}
+	if kind == "deafsub" || kind == "deafecho" {
+		// a paused reader cannot see EOF: the end is observed through the teardown notification
+		select {
+		case <-cl.stopped:
+			cl.mu.Lock()
+			cl.eof = true
+			cl.mu.Unlock()
+		case <-time.After(d + 3*time.Second):
+		}
 	}
 	closed := cl.waitUntil(func() bool { return cl.eof }, d+3*time.Second)
 	elapsed := time.Since(last)
